@@ -1,7 +1,10 @@
 (* C11 — The WebSocket wrapper only forwards protocol-legal event sequences.
    Statements only.  All quantify over every call sequence [calls : list call]
    (accept, receive, receive_text/bytes, iter_text/bytes with any item limit,
-   send_text/bytes, close, raw send of an arbitrary message) and every server
+   send_text/bytes, close, raw send of an arbitrary message, and the generators
+   of iter_text/bytes kept open across calls: IterOpen creates one, IterStep i is
+   one __anext__() of the i-th, IterClose i its aclose() — any other call may
+   come between two steps, several generators may be open) and every server
    script [script : list msg] (arbitrary messages; where the order of the server
    events matters the hypothesis [starts_with_connect] is stated).
 
@@ -12,7 +15,9 @@
      recvd                     : the messages handed over by receive()
      legal                     : recogniser of  accept send* close? | close | nothing
      no_recv_after_disconnect  : recogniser of "no receive() once websocket.disconnect was delivered"
-     receipts                  : what the receive helpers handed to the application, per call. *)
+     receipts                  : what the receive helpers handed to the application, per call
+     its s                     : the generators created so far (kind, finished or not)
+     typed_receive / reads_raw : receive_text/bytes, iter_*, IterStep  /  receive(), accept(). *)
 From Coq Require Import List NArith ZArith Sorting.Sorted.
 From Baize Require Import Lib.Wire C11.Model C11.Proofs.
 Import ListNotations.
@@ -71,11 +76,71 @@ Theorem accept_consumes_connect : forall (calls : list call) (script : list msg)
 Proof. exact accept_consumes_connect_proof. Qed.
 
 (* No receive() is issued to the server after it delivered websocket.disconnect
-   (server speaks connect first), and none at all while client_state is DISCONNECTED. *)
+   (server speaks connect first), and none at all while client_state is DISCONNECTED.
+   After the application closed (application_state DISCONNECTED) no call other
+   than the raw receive() and accept() touches the server at all — in particular
+   no step of a generator that is still open — and nothing changes.
+   (receive() is deliberately not guarded by application_state: an application
+   may drain the events up to the disconnect after it closed; accept() in
+   CONNECTING waits for websocket.connect before its send() raises.) *)
 Theorem no_receive_after_disconnect : forall (calls : list call) (script : list msg),
   (starts_with_connect script -> no_recv_after_disconnect (full_trace calls script) = true) /\
-  (forall o, In o (observations calls script) -> cs (o_before o) = Disconnected -> no_recv (o_trace o) = true).
-Proof. exact no_receive_after_disconnect_proof. Qed.
+  (forall o, In o (observations calls script) -> cs (o_before o) = Disconnected -> no_recv (o_trace o) = true) /\
+  (forall o, In o (observations calls script) ->
+     aps (o_before o) = Disconnected -> reads_raw (o_call o) = false ->
+     o_trace o = [] /\ cs (o_after o) = cs (o_before o) /\ aps (o_after o) = Disconnected).
+Proof. exact no_receive_after_disconnect_proof2. Qed.
+
+(* Payloads are only read between accept and close: receive_text/bytes, the
+   atomic iter_text/bytes and every step of an open generator, made while
+   application_state is not CONNECTED, raise AssertionError (a generator that had
+   already finished: StopAsyncIteration) without asking the server for an event
+   and without changing either state. *)
+Theorem typed_receive_needs_connected_application : forall (calls : list call) (script : list msg) (o : obs),
+  In o (observations calls script) ->
+  aps (o_before o) <> Connected -> typed_receive (o_call o) = true ->
+  o_trace o = [] /\ cs (o_after o) = cs (o_before o) /\ aps (o_after o) = aps (o_before o) /\
+  refused (o_out o) = true.
+Proof. exact typed_receive_needs_connected_application_proof. Qed.
+
+(* One step of a live generator is exactly receive_text() / receive_bytes() made
+   at that moment (same guard, same events, same state changes), except that
+   WebSocketDisconnect ends the iteration; anything but a yielded item finishes
+   the generator. *)
+Theorem iter_step_is_typed_receive : forall (i : nat) (s : st) (sc : list msg) (it : iter),
+  nth_error (its s) i = Some it -> idone it = false ->
+  match step (receive_call (ikind it)) s sc, step (IterStep i) s sc with
+  | (o1, s1, sc1, t1), (o2, s2, sc2, t2) =>
+      o2 = step_outcome_of o1 /\ sc2 = sc1 /\ t2 = t1 /\ cs s2 = cs s1 /\ aps s2 = aps s1 /\
+      its s2 = match o1 with OVal _ => its s | _ => finish i (its s) end
+  end.
+Proof. exact iter_step_is_typed_receive_proof. Qed.
+
+(* A finished generator is inert: StopAsyncIteration, nothing else happens ... *)
+Theorem finished_iterator_inert : forall (i : nat) (s : st) (sc : list msg) (it : iter),
+  nth_error (its s) i = Some it -> idone it = true ->
+  step (IterStep i) s sc = (OStop, s, sc, []).
+Proof. exact finished_iterator_inert_proof. Qed.
+
+(* ... and a generator is finished after aclose() and after any step that did not yield. *)
+Theorem iterator_finishes : forall (i : nat) (s : st) (sc : list msg) (out : outcome) (s' : st) (sc' : list msg)
+                                   (tr : list ev) (it : iter),
+  nth_error (its s) i = Some it ->
+  (step (IterClose i) s sc = (out, s', sc', tr) \/
+   (step (IterStep i) s sc = (out, s', sc', tr) /\ (out = OStop \/ exists e, out = OExn e))) ->
+  nth_error (its s') i = Some (Iter (ikind it) true).
+Proof. exact iterator_finishes_proof. Qed.
+
+(* The atomic call iter_text/bytes with item limit n is a derived form: create a
+   generator, step it until it stops (at most n times), close it. *)
+Theorem iter_steps_equal_atomic_iter : forall (kd : kind) (n : nat) (s : st) (sc : list msg),
+  exists s0, step (IterOpen kd) s sc = (ONone, s0, sc, []) /\
+  match step (iter_call kd n) s sc, steps_until (length (its s)) n s0 sc with
+  | (out, s1, sc1, t1), (r, s2, sc2, t2) =>
+      out = OIter (fst r) (snd r) /\ sc2 = sc1 /\ t2 = t1 /\ cs s2 = cs s1 /\ aps s2 = aps s1 /\
+      its s2 = its s1 ++ [Iter kd true]
+  end.
+Proof. exact iter_steps_equal_atomic_iter_proof. Qed.
 
 (* The server's events are consumed in script order, none skipped, none twice. *)
 Theorem script_delivered_in_order : forall (calls : list call) (script : list msg),
@@ -85,7 +150,8 @@ Proof. exact script_delivered_in_order_proof. Qed.
 (* Received frames are returned in order exactly once: what the receive helpers
    handed to the application corresponds one to one, in order, to the
    websocket.receive events delivered by the server — each frame is returned
-   whole (receive), by its requested entry (receive_text/bytes, iter_text/bytes), or is
+   whole (receive), by its requested entry (receive_text/bytes, iter_text/bytes, a step
+   of an open generator — whatever is called between the steps), or is
    reported as KeyError for the entry it does not have. *)
 Theorem frames_in_order_once : forall (calls : list call) (script : list msg),
   starts_with_connect script ->
@@ -95,7 +161,8 @@ Proof. exact frames_in_order_once_proof. Qed.
 
 (* close() never raises and leaves application_state DISCONNECTED ... *)
 Theorem close_closes : forall (code reason : value) (s : st) (sc : list msg),
-  exists tr s', step (Close code reason) s sc = (ONone, s', sc, tr) /\ aps s' = Disconnected /\ cs s' = cs s.
+  exists tr s', step (Close code reason) s sc = (ONone, s', sc, tr) /\ aps s' = Disconnected /\ cs s' = cs s /\
+               its s' = its s.
 Proof. exact close_closes_proof. Qed.
 
 (* ... and once close() has been called, every later close(), after any further
@@ -113,7 +180,9 @@ Proof. exact close_idempotent_proof. Qed.
 (* client_state and application_state only move forward
    CONNECTING -> CONNECTED -> DISCONNECTED: the states reported after the calls,
    starting from the constructor's, are sorted (every earlier <= every later),
-   each call starts where the previous one ended, and no call moves backwards. *)
+   each call starts where the previous one ended, and no call moves backwards.
+   [st_le] also covers the generators: none is forgotten, none changes its kind,
+   a finished one never runs again. *)
 Theorem states_monotone : forall (calls : list call) (script : list msg),
   StronglySorted st_le (init :: map o_after (observations calls script)) /\
   map o_before (observations calls script) =
@@ -128,6 +197,11 @@ Print Assumptions illegal_raises_nothing_forwarded.
 Print Assumptions sends_forward_or_raise.
 Print Assumptions accept_consumes_connect.
 Print Assumptions no_receive_after_disconnect.
+Print Assumptions typed_receive_needs_connected_application.
+Print Assumptions iter_step_is_typed_receive.
+Print Assumptions finished_iterator_inert.
+Print Assumptions iterator_finishes.
+Print Assumptions iter_steps_equal_atomic_iter.
 Print Assumptions script_delivered_in_order.
 Print Assumptions frames_in_order_once.
 Print Assumptions close_closes.
